@@ -17,9 +17,28 @@
 use log::trace;
 
 use super::node::AffContent;
-use crate::linalg::affine::Polytope;
+use crate::linalg::affine::{AffFunc, Polytope};
 use crate::tree::graph::{Tree, TreeIndex};
 use crate::tree::iter::{DfsNodeData, DfsPre, TraversalMut};
+
+/// Returns the closed halfspaces of the edge with the given ``label`` leaving a decision with predicate ``aff``:
+/// bit ``i`` of the label is set iff row ``i`` of the predicate is satisfied, so the rows of unset bits are negated.
+/// Labels that the predicate cannot produce yield the empty polytope.
+pub fn edge_polytope(aff: &AffFunc, label: usize) -> Polytope {
+    // a decision with r rows only produces the labels 0..2^r: no input takes any other edge
+    if label >= (1 << aff.outdim()) {
+        return Polytope::empty(aff.indim());
+    }
+    let mut mat = aff.mat.to_owned();
+    let mut bias = aff.bias.to_owned();
+    for row in 0..aff.outdim() {
+        if (label >> row) & 1 == 0 {
+            mat.row_mut(row).mapv_inplace(|x| -x);
+            bias[row] = -bias[row];
+        }
+    }
+    Polytope::from_mats(mat, bias)
+}
 
 /// A depth-first iterator over an [``crate::pwl::afftree::AffTree``] instance that also provides the path condition
 /// in form of a [``Polytope``].
@@ -75,14 +94,8 @@ impl PolyhedraGen {
                 "Edge {} -{}-> {}",
                 edg.source_idx, edg.label, edg.target_idx
             );
-            let factor = match edg.label {
-                1 => 1.0,
-                0 => -1.0,
-                _ => panic!("label should be 0 or 1, but got {}", &edg.label),
-            };
             let aff = &tree.node_value(edg.source_idx).ok()?.aff;
-            let poly = Polytope::from_mats(&aff.mat * factor, &aff.bias * factor);
-            self.predicates.push(poly);
+            self.predicates.push(edge_polytope(aff, edg.label));
         }
 
         Some((data, &self.predicates))
